@@ -123,3 +123,35 @@ Lemma for_each_inv' {S} (Inv : S -> Prop) (body : Z -> S -> res S) ws s0 s' :
   for_each ws body s0 = Ok s' ->
   Inv s0 -> (forall j s s1, In j ws -> Inv s -> body j s = Ok s1 -> Inv s1) -> Inv s'.
 Proof. intros; eapply for_each_inv; eauto. Qed.
+
+(* ---- "range fill" loops:  for j in range(n): out[j] = g(j) ---- *)
+Lemma for_range_fill_from {C} (g : Z -> res C) (f : Z -> C) (body : Z -> list C -> res (list C)) :
+  (forall j acc, body j acc = bind (g j) (fun v => set_idx acc j v)) ->
+  forall m (pre post : list C),
+    length post = m ->
+    (forall i, (i < m)%nat -> g (Z.of_nat (length pre + i)) = Ok (f (Z.of_nat (length pre + i)))) ->
+    for_each (zrange_from (Z.of_nat (length pre)) m) body (pre ++ post)
+    = Ok (pre ++ map f (zrange_from (Z.of_nat (length pre)) m)).
+Proof.
+  intros Hb m. induction m as [|m IH]; intros pre post Hl Hg.
+  - destruct post; [|discriminate]. reflexivity.
+  - destruct post as [|c0 post]; [discriminate|]. cbn [zrange_from for_each map].
+    rewrite Hb. specialize (Hg O ltac:(lia)) as Hg0. rewrite Nat.add_0_r in Hg0. rewrite Hg0. cbn [bind].
+    rewrite set_idx_mid. cbn [bind].
+    replace (Z.of_nat (length pre) + 1)%Z with (Z.of_nat (length (pre ++ [f (Z.of_nat (length pre))]))) by (rewrite app_length; simpl; lia).
+    rewrite (IH (pre ++ [f (Z.of_nat (length pre))]) post).
+    + rewrite <- app_assoc. reflexivity.
+    + simpl in Hl; lia.
+    + intros i Hi. rewrite app_length. simpl. replace (length pre + 1 + i)%nat with (length pre + S i)%nat by lia. apply Hg. lia.
+Qed.
+
+Lemma for_range_fill {C} (g : Z -> res C) (f : Z -> C) (body : Z -> list C -> res (list C)) (n : Z) (init : list C) :
+  (forall j acc, body j acc = bind (g j) (fun v => set_idx acc j v)) ->
+  length init = Z.to_nat n ->
+  (forall j, (0 <= j < n)%Z -> g j = Ok (f j)) ->
+  for_each (zrange 0 n) body init = Ok (map f (zrange 0 n)).
+Proof.
+  intros Hb Hl Hg. unfold zrange. rewrite Z.sub_0_r.
+  apply (for_range_fill_from g f body Hb (Z.to_nat n) [] init Hl).
+  intros i Hi. simpl. apply Hg. lia.
+Qed.
